@@ -55,11 +55,12 @@ def run(ctx):
             raise Inconclusive("driver printed no summary")
         for key, v in re.findall(r"(\w+)=(\d+)", line[-1]):
             counts[key] = counts.get(key, 0) + int(v)
-    for need in ("overlong", "validateLong", "total", "msgpair", "askedAgain", "retain", "concurrent", "boundary", "prove", "transport", "z0", "z1", "z2", "mutate", "torsion", "torsionAccepted", "validate", "qualified"):
-        if counts.get(need, 0) == 0:
-            raise Inconclusive("vacuity: no %s observations were produced" % need)
-    if counts["validate"] == counts["qualified"]:
-        raise Inconclusive("vacuity: no unqualified lottery value among the generated cases")
+    vacuous = ["no %s observations were produced" % need
+               for need in ("blockVrf", "overlong", "validateLong", "total", "msgpair", "askedAgain", "retain", "concurrent", "boundary", "prove",
+                            "transport", "z0", "z1", "z2", "mutate", "torsion", "torsionAccepted", "validate", "qualified")
+               if counts.get(need, 0) == 0]
+    if counts.get("validate", 0) == counts.get("qualified", 0):
+        vacuous.append("no unqualified lottery value among the generated cases")
     merged = []
     step = 2 if quick else 4
     for k in range(0, len(traces), step):
@@ -80,6 +81,8 @@ def run(ctx):
                 if e["event"] in ("Transport", "Torsion", "ValidateProve", "Mutate") and \
                         e["event"] not in [s["event"] for s in samples]:
                     samples.append(e)
+    if vacuous and not ctx.violations:
+        raise Inconclusive("vacuity: " + "; ".join(vacuous))
     evaluations = counts["transport"] + counts["mutate"] + counts["torsion"] + counts["validate"]
     coverage = {
         "evaluations": evaluations,
@@ -93,6 +96,7 @@ def run(ctx):
         "transitions": ref["generated"] + qn["generated"] + gen["generated"],
         "traces_validated_against_impl": len(merged),
         "events_validated": total,
+        "mutations_presented_to_verifyBlockVRF": counts["blockVrf"],
         "related_message_pairs": counts["msgpair"],
         "qualification_questions_asked_again": counts["askedAgain"],
         "retained_proof_observations": counts["retain"],
